@@ -109,17 +109,22 @@ def per_ceremony_cases(sc, out):
 def build(run):
     rng = run.rng
     cid = bytes([0xC1]) * 16
-    base = [mk_passkey(rng, "example.com", cred_id=cid, counter=7, keyidx=0),
-            mk_passkey(rng, "other.org", cred_id=bytes([0xC2]) * 16, counter=None, keyidx=1)]
+    def base_with(counter):
+        return [mk_passkey(rng, "example.com", cred_id=cid, counter=counter, keyidx=0),
+                mk_passkey(rng, "other.org", cred_id=bytes([0xC2]) * 16, counter=None, keyidx=1)]
+    base = base_with(7)
+    fresh = base_with(0)          # a credential as registration leaves it: counter Some(0)
     A = lambda: {"op": "get_assertion", "req": ga_req(rng, allow=[cid])}
     A2 = lambda: {"op": "get_assertion", "req": ga_req(rng, rp="other.org", allow=[bytes([0xC2]) * 16])}
     Rg = lambda rk=False, ex=None: {"op": "make_credential", "req": mc_req(rng, rk=rk, exclude=ex)}
-    groups = [[A(), A()], [A(), Rg()], [Rg(), Rg()], [A(), A2()], [A(), Rg(rk=True)], [Rg(ex=[cid]), A()]]
+    groups = [(g, base) for g in ([A(), A()], [A(), Rg()], [Rg(), Rg()], [A(), A2()], [A(), Rg(rk=True)], [Rg(ex=[cid]), A()])]
+    groups += [([A(), A()], fresh), ([A(), Rg()], fresh)]
     if run.tier != "quick":
-        groups += [[A(), A(), A()], [A(), A(), Rg()], [A(), Rg(), Rg()], [Rg(), Rg(), Rg()]]
+        groups += [(g, base) for g in ([A(), A(), A()], [A(), A(), Rg()], [A(), Rg(), Rg()], [Rg(), Rg(), Rg()])]
+        groups += [([A(), A(), A()], fresh)]
     kinds = ["arc_mutex_memory", "arc_rwlock_memory"] if run.tier == "quick" else ["arc_mutex_memory", "arc_rwlock_memory", "arc_mutex_ref", "arc_rwlock_ref"]
     scs, n_exh = [], 0
-    for g in groups:
+    for g, content in groups:
         counts = [polls_of(o) for o in g]
         allm = list(merges(list(counts)))
         exhaustive = True
@@ -129,7 +134,7 @@ def build(run):
         for kind in kinds:
             for sched in allm:
                 scs.append({"mode": "concurrent", "config": {"aaguid": "00" * 16, "counter": True, "id_len": 16, "hmac": None},
-                            "store": {"kind": kind, "disc": "full", "empty_is_err": False, "content": base},
+                            "store": {"kind": kind, "disc": "full", "empty_is_err": False, "content": content},
                             "user": {"verif_enabled": True, "presence_enabled": True, "script": [{"presence": True, "verification": True}]},
                             "ceremonies": g, "schedule": sched})
                 n_exh += exhaustive
@@ -139,7 +144,7 @@ def build(run):
         sched = [i for i, o in enumerate(g) for _ in range(polls_of(o))]
         rng.shuffle(sched)
         scs.append({"mode": "concurrent", "config": {"aaguid": "00" * 16, "counter": True, "id_len": 16, "hmac": None},
-                    "store": {"kind": rng.choice(kinds), "disc": "full", "empty_is_err": False, "content": base},
+                    "store": {"kind": rng.choice(kinds), "disc": "full", "empty_is_err": False, "content": rng.choice([base, fresh])},
                     "user": {"verif_enabled": True, "presence_enabled": True, "script": [{"presence": True, "verification": True}]},
                     "ceremonies": g, "schedule": sched})
     return scs, n_exh
@@ -173,7 +178,7 @@ def check(run):
         if "results" in out and not out["deadlock"]:
             for i, op, obs, t in per_ceremony_cases(sc, out):
                 terms.append(t); owners.append((si, i))
-        shapes.add((sc["store"]["kind"], tuple(o["op"] for o in sc["ceremonies"]), tuple(sc["schedule"])))
+        shapes.add((sc["store"]["kind"], sc["store"]["content"][0]["counter"], tuple(o["op"] for o in sc["ceremonies"]), tuple(sc["schedule"])))
     res = common.coq_eval(PROP, ceremony.PREAMBLE, terms, ["agree", "store_ok"], shard=250)
     for i in res["store_ok"][:2]:
         si, ci = owners[i]
@@ -193,7 +198,7 @@ def check(run):
         "theorems": thms, "evaluations": len(scs), "distinct_nontrivial": len(shapes),
         "rule": "all interleavings (at every suspension point) of assert/assert on one credential, assert/register, register/register, "
                 "assert/assert on two credentials, assert/register(rk), register(exclude)/assert on Arc<Mutex<MemoryStore>> and Arc<RwLock<MemoryStore>> "
-                "(thorough: triples and the reference store too), plus random long schedules of 2-5 ceremonies; distinct = (store kind, ceremonies, schedule)",
+                "(thorough: triples and the reference store too), on a credential with counter 7 and on a fresh one (counter 0), plus random long schedules of 2-5 ceremonies; distinct = (store kind, ceremonies, schedule)",
         "samples": [json.dumps({"ceremonies": [o["op"] for o in scs[0]["ceremonies"]], "schedule": scs[0]["schedule"], "store": scs[0]["store"]["kind"]})],
         "exhaustive_schedules": n_exh, "per_ceremony_replays": len(terms), "model_disagreements": len(res["agree"]),
         "oracle_failures": len(res["store_ok"]) + n_fail, "known_finding_hits": n_known,
